@@ -299,6 +299,7 @@ func (c *capTB) Failed() bool   { return c.failed }
 // Rapid runs n generated cases of one sub-check. check must be a pure function
 // of the case and the code under test.
 func Rapid[C any](s *Session, sub string, n int, gen func(*rapid.T) C, check func(C) error) {
+	defer s.timing(sub+" (generated)", time.Now())
 	if s.replay != nil {
 		if s.replay.Sub != sub {
 			return
@@ -345,6 +346,7 @@ func Rapid[C any](s *Session, sub string, n int, gen func(*rapid.T) C, check fun
 
 // Each runs check over an explicitly enumerated list of cases.
 func Each[C any](s *Session, sub string, cases func(yield func(C)), check func(C) error) {
+	defer s.timing(sub+" (enumerated)", time.Now())
 	if s.replay != nil {
 		if s.replay.Sub != sub {
 			return
@@ -366,6 +368,13 @@ func Each[C any](s *Session, sub string, cases func(yield func(C)), check func(C
 
 // Regress re-runs every saved case of replays/regress that belongs to this
 // sub-check (plain regression inputs that bypass the generators).
+// timing prints how long a sub-check took when VERIF_TIMING is set.
+func (s *Session) timing(sub string, t0 time.Time) {
+	if os.Getenv("VERIF_TIMING") != "" {
+		fmt.Printf("timing: %s %s %.1fs\n", s.ID, sub, time.Since(t0).Seconds())
+	}
+}
+
 func Regress[C any](s *Session, sub string, check func(C) error) {
 	if s.replay != nil {
 		return
